@@ -13,6 +13,7 @@ from vf.checks import parserlevel as PL
 
 PROPERTY = "C01"
 LEVEL = "exploration"
+SHRINKABLE = True  # violating documents are minimised (ddmin) before the replay file is written
 BASELINE = "C01"
 REQUIRED_COUNTERS = ["parse_calls", "step_events_nonzero"]
 ASSUMPTIONS = [
